@@ -7,11 +7,32 @@ ROOT = Path(__file__).resolve().parent.parent
 PROPS = [json.loads(l)["id"] for l in (ROOT / "properties.jsonl").read_text().splitlines() if l.strip()]
 
 # id -> (technique, level text, level note, design ref)
+TRUST = "floats as reals (exact arithmetic), int32 as integers; sizes enumerated (evidence.bounds); stubs listed in evidence.assumptions; z3 5.1 trusted; counterexamples replayed on the real code before being reported"
 CLAIMED = {
+    "C01": ("real solve(1) under a z3-valued JAX trace from an arbitrary pre-state; optimality gap bounded by SMT with V_pi and V* as fixed-point unknowns, all successor structures substituted",
+            "For each enumerated shape, every deterministic successor structure (grid-stochastic for two events), every real V, R, epsilon (gamma symbolic for S=2, grid for S=3): whenever the real VI / PI / semi-async loop reports convergence, z3 shows the documented a-priori bound on V*-V_pi (and on |values - V*| / |values - V_pi| under max_diff). Bounded symbolic verification.",
+            TRUST, "DESIGN.md section 3, C01"),
     "C02": ("bounded symbolic execution of the real sweep/policy kernels under a z3-valued JAX trace; per-state SMT equality with an independent Bellman backup",
-            "For every enumerated shape/batch/device configuration, z3 shows that for ALL real-valued V, R, P, gamma and all successor tables the real pmapped sweep equals max_a sum_e P(R+gamma V[succ]) and the extracted policy is a greedy action from the action space; monotonicity, shift and contraction are shown on the code's own terms. Bounded by shape, exact arithmetic.",
-            "floats as reals; shapes enumerated (see evidence.bounds); JAX pmap lowering (jit+shard_map) interpreted shard by shard; z3 is trusted",
-            "DESIGN.md section 3, C02"),
+            "For every enumerated shape/batch/device configuration, z3 shows that for ALL real-valued V, R, P, gamma and all successor tables the real pmapped sweep equals max_a sum_e P(R+gamma V[succ]) and the extracted policy is a greedy action from the action space; monotonicity, shift and contraction are shown on the code's own terms.",
+            TRUST, "DESIGN.md section 3, C02"),
+    "C08": ("real solve() loops of all five solvers executed under a re-execution path explorer with the sweep abstracted as an uninterpreted function; SMT validities over the recorded terms",
+            "For all gamma in [0,1], epsilon>0, initial values and every convergence outcome pattern within k<=3(4) sweeps: threshold equals the documented formula, at most k sweeps, stop exactly at the first sweep below the documented measure, iteration == sweeps, values == U^n(V0), solve(k1);solve(k2) == solve(k1+k2). Bounded by k and S=2 (sweep content is C02).",
+            TRUST, "DESIGN.md section 3, C08"),
+    "C14": ("real transition and index function under the z3-valued trace on bounded symbolic state/action/event vectors; LIA queries per parameterisation",
+            "For each enumerated parameterisation of the four shipped problems, z3 shows for ALL listed states, actions and positive-probability events that every successor component is in range and that the real state_to_index returns the successor's row-major rank (no clipping); sizes, duplicates and row indices are checked on the concrete arrays.",
+            TRUST, "DESIGN.md section 3, C14"),
+    "C15": ("differential symbolic execution: real transition() vs a scalar reference written from the docstrings, unbounded symbolic stock/demand/order integers and symbolic cost coefficients",
+            "For each useful life / lead time / issuing policy, z3 shows for ALL non-negative integer states, actions, events and ALL real cost coefficients that successor and reward equal the documented scalar model and that units are conserved (issued/expired extracted from the real reward by unit cost vectors).",
+            TRUST, "DESIGN.md section 3, C15"),
+    "C17": ("real matrix builder executed eagerly under the z3-valued trace (scatter-add with symbolic indices), both host paths explored; entrywise SMT identities",
+            "For each enumerated shape and ALL successor tables, probabilities, rewards and tolerances in [0,1): every P and R entry equals the reference accumulation, rows sum to one, matrix state-action values equal the functional ones, the error path is taken iff the worst deviation exceeds the tolerance and names an argmax pair.",
+            TRUST, "DESIGN.md section 3, C17"),
+    "C18": ("real BatchProcessor constructor on unbounded symbolic integers under the path explorer; prepare/unbatch under the z3-valued trace on arrays of symbols",
+            "Arithmetic facts (batch size bounds, slot count, padding, device count, batch_shape) hold for ALL n_states>=1, max_batch_size>=1 and devices 1..8 (no size bound needed by the solver); routing (original order, padding only at the end, lossless un-batching with trailing dims) shown for an enumerated box of sizes.",
+            TRUST, "DESIGN.md section 3, C18"),
+    "C19": ("real index_fn under the z3-valued trace on an unbounded symbolic vector, boxes enumerated; LIA queries",
+            "For every enumerated box (dims 1..3(4), bounds -2..3, zero width included) and ALL integer vectors: in-box vectors map to their own row, every vector maps to the row of the coordinate-wise nearest box point; the listed space is the row-major enumeration.",
+            TRUST, "DESIGN.md section 3, C19"),
 }
 NOT_YET = "check not built yet in this session (work in progress; see DESIGN.md section 3 for the planned encoding)"
 NA = {
